@@ -265,7 +265,9 @@ def same_named_figures(F, rep):
 
 
 REPORT_LISTS = ("tax_years", "disposals", "matches")
-DROPPING = ("filter", "filter_map", "skip", "take", "take_while", "skip_while", "step_by")
+# `filter_map` is not in the list: it is the iterator spelling of `for x in list { if let Some(line) = render(x) { .. } }`, a
+# per-element rendering decision which this rule does not judge in the loop form either (behaviour-preserving rewrite r12)
+DROPPING = ("filter", "skip", "take", "take_while", "skip_while", "step_by")
 LISTING = ("collect", "next", "for_each", "extend", "try_for_each", "fold", "try_fold")
 
 
